@@ -1,4 +1,4 @@
-#!/usr/bin/env python3
+#!/opt/veriftools/pyvenv/bin/python3
 # Regenerates /verif/MANIFEST.json from the table below (kept in one place so that it always validates).
 import json, subprocess, sys
 ENV = "GOFLAGS=-mod=mod GOPROXY=off GOSUMDB=off GOTOOLCHAIN=local GOWORK=off"
